@@ -225,7 +225,7 @@ Proof. intros [d s u k]. cbn [wnorm_msg]. destruct (nth_error E d); reflexivity.
 
 (* the round trip for every message whose normal form is canonical: parsing what pack writes gives the normal form *)
 Theorem roundtrip_to_normal_form : forall m b,
-  canon_msg E (wn m) = true -> pack_msg E m = Ok b -> Z.of_nat (length b) <= 2147483647 ->
+  canon_msg E (wn m) = true -> pack_msg E m = Ok b -> Z.of_nat (length b) <= max_input ->
   unpack_top E (m_desc m) b = Ok (wn m).
 Proof.
   intros m b C Hp Hl. rewrite <- pack_wnorm in Hp. rewrite <- wnorm_desc. unfold unpack_top.
